@@ -211,6 +211,7 @@ func (o *Operator) HandleDeploy(ctx context.Context, req *workerpb.DeployOperato
 	if err != nil {
 		return fmt.Errorf("creating filesystem: %w", err)
 	}
+	verifhook.Point("operator.deploy.fs", &fs)
 
 	// Start the DKV database.
 	o.db = dkv.Open(dkv.DBOptions{
